@@ -81,6 +81,7 @@ BM = "contracts.bd_masks"
 def specs_solver(tier):
     t = 60000 if tier == "thorough" else 20000
     s = [(SY, "unit_sylvester_diagonal", {"kind": k, "timeout_ms": t}) for k in ("zero", "dense", "sparse", "sympy")]
+    s += [(SY, "unit_sylvester_diagonal", {"kind": k, "timeout_ms": t, "zero_block": zb}) for k in ("dense", "sparse", "sympy") for zb in ("row", "col")]
     s.append((SY, "unit_sylvester_diagonal", {"kind": "dense", "timeout_ms": t, "canary": True}))
     s.append((SY, "unit_sylvester_formula", {"timeout_ms": t}))
     return s
